@@ -27,6 +27,7 @@ for n, tier, tag in ((4, 'quick', ''), (5, 'thorough', '/n5')):
 D4 = ('VERIF_N=4',)
 OBLS += [
     Obl('C18.5', H, 'obl_c18_intmath', 'B', 'ceil_div, LocalWorkCalculator, signum, clamp, min/max on full-width ints (mul oracle: 12-bit operands)', mode='bv', defines=D4, timeout=200),
+    Obl('C18.5w', H, 'obl_c18_ceildiv_fullwidth', 'B', 'ceil_div over the full 32-bit operand range vs quotient/remainder definition', mode='bv', defines=D4, timeout=200),
     Obl('C18.5f', H, 'obl_c18_fpminmax', 'B', 'FP min/max incl. one NaN operand, clamp_to_nonneg, all doubles', mode='fp', defines=D4, timeout=120),
     Obl('C18.6', H, 'obl_c18_hyperslab', 'B', 'HyperslabIndexer<3>/inverse: row-major index, in range, bijective (extents 1..8)', mode='bv', defines=D4, timeout=200),
     Obl('C18.7', H, 'obl_c18_uniform_find', 'B', 'UniformGrid::find on from_bounds grids: bin+1 < size for every front <= v < back (IEEE doubles)', mode='fp', defines=D4,
